@@ -228,25 +228,33 @@ func RootKeyOf(path string) string {
 
 // SerialOrder checks that in the event log every event under root key k_i precedes every event
 // under k_{i+1} (keys in document order) and that the data lists the root keys in that order.
-func SerialOrder(c *Case, o *Observed) string {
+// With skipAbandoned, fulfilments of promises the executor never received are left out.
+func SerialOrder(c *Case, o *Observed, skipAbandoned bool) string {
 	rank := map[string]int{}
 	for i, f := range c.Shape.Fields {
 		rank[strconv.Quote(f.Key())] = i
 	}
+	abandoned := map[string]bool{}
+	for _, p := range o.Abandoned {
+		abandoned[p] = true
+	}
 	last := -1
-	lastPath := ""
+	lastEvent := ""
 	for _, e := range o.Events {
+		if skipAbandoned && e.Kind == "fulfil" && abandoned[e.Path] {
+			continue
+		}
 		r, ok := rank[RootKeyOf(e.Path)]
 		if !ok {
 			return fmt.Sprintf("event %s%s is under no root field", e.Kind, e.Path)
 		}
 		if r < last {
-			return fmt.Sprintf("event %s%s (root field #%d) happens after %s (root field #%d)", e.Kind, e.Path, r, lastPath, last)
+			return fmt.Sprintf("event %s%s (root field #%d) happens after %s (root field #%d)", e.Kind, e.Path, r, lastEvent, last)
 		}
 		if r > last {
 			last = r
+			lastEvent = e.Kind + e.Path
 		}
-		lastPath = e.Kind + e.Path
 	}
 	if kvs, ok := o.tree.([]kv); ok {
 		for i, f := range c.Shape.Fields {
@@ -256,14 +264,6 @@ func SerialOrder(c *Case, o *Observed) string {
 		}
 	}
 	return ""
-}
-
-// SplitCat splits "category|message".
-func SplitCat(m string) (cat, msg string) {
-	if i := strings.Index(m, "|"); i >= 0 {
-		return m[:i], m[i+1:]
-	}
-	return "", m
 }
 
 // AllErrors lists every field error the request can raise according to the GraphQL rules, read
@@ -310,4 +310,12 @@ func AllErrors(c *Case) map[ErrObs]bool {
 	}
 	walkObj(c.Shape, c.World, "")
 	return out
+}
+
+// SplitCat splits "category|message".
+func SplitCat(m string) (cat, msg string) {
+	if i := strings.Index(m, "|"); i >= 0 {
+		return m[:i], m[i+1:]
+	}
+	return "", m
 }
